@@ -153,7 +153,8 @@ def dec_chunks(s):
 
 def model_request(case):
     ka, kf = cfg_fields(case)
-    return 'min %d %s %s' % (ka, 'N' if kf is None else lib.hx(kf), enc_chunks(split_lines(lib.unhx(case['src']))))
+    return '%s %d %s %s' % ('cart' if case['kind'].startswith('cli') else 'min', ka, 'N' if kf is None else lib.hx(kf),
+                            enc_chunks(split_lines(lib.unhx(case['src']))))
 
 
 def compare(case, obs, answer):
@@ -171,6 +172,12 @@ def compare(case, obs, answer):
         return None
     if not answer.startswith('OK '):
         return 'implementation wrote %r, model answered %s' % (obs['out'][:60], answer[:80])
+    if 'chunks' not in obs:
+        mtxt = lib.unhx(answer[3:])       # `cart` request: the model's __lua__ text (writer + .p8 final line break)
+        if mtxt != obs['out']:
+            n = next((i for i, (a, b) in enumerate(zip(mtxt, obs['out'])) if a != b), min(len(mtxt), len(obs['out'])))
+            return 'written __lua__ section differs at byte %d: implementation %r, model %r' % (n, obs['out'][max(0, n - 20):n + 20], mtxt[max(0, n - 20):n + 20])
+        return None
     mchunks = dec_chunks(answer[3:])
     if 'chunks' in obs:
         if mchunks != obs['chunks']:
